@@ -37,10 +37,10 @@ fn run_case(kind: &str, idx: u64, rng: &mut Rng, mon: &mut Mon, _tier: Tier) {
     }
     let robot = gen_robot(rng, idx, RobotMode::All, 0.2);
     let rp = robot.rp;
-    let kin = OPWKinematics::new(to_params(&rp));
+    let kin = make_solver(rng, &rp);
     let pclass = rng.usize(6);
     let gp = gen_pose(rng, &rp, pclass);
-    let (prev, prev_class) = gen_prev(rng, gp.q.as_ref(), rng.clone().usize(6));
+    let (prev, prev_class) = gen_prev(rng, gp.q.as_ref(), rng.clone().usize(8));
     let _ = rng.next_u64();
     let j6 = *rng.pick(&[0.0, PI, -PI, 1.0, -2.5, 1e3]);
     mon.count(&format!("pose_class.{}", gp.class));
@@ -86,11 +86,11 @@ fn shared_history(idx: u64, rng: &mut Rng, mon: &mut Mon) {
         r.sign_pattern = 64;
         robots.push(r);
     }
-    let kins: Vec<OPWKinematics> = robots.iter().map(|r| OPWKinematics::new(to_params(&r.rp))).collect();
+    let kins: Vec<OPWKinematics> = robots.iter().map(|r| make_solver(rng, &r.rp)).collect();
     // shared targets: poses of the first robot (any class) asked of every robot
     let n_targets = 1 + rng.usize(4);
     let targets: Vec<_> = (0..n_targets).map(|_| { let c = rng.usize(5); gen_pose(rng, &first.rp, c) }).collect();
-    let prevs: Vec<_> = targets.iter().map(|t| gen_prev(rng, t.q.as_ref(), rng.clone().usize(6))).collect();
+    let prevs: Vec<_> = targets.iter().map(|t| gen_prev(rng, t.q.as_ref(), rng.clone().usize(8))).collect();
     let _ = rng.next_u64();
     let j6 = *rng.pick(&[0.0, 1.0, -2.5]);
     // interleavings: target-major (robot changes between two identical queries) or robot-major with a repeat
